@@ -89,10 +89,11 @@ def _helper_cases(draw, tier):
                         normalize=False))
     mode = draw(st.sampled_from(["default", "list", "list", "add", "list+add"]))
     where = draw(st.sampled_from(["any", "any", "first-span", "last-span"]))
-    vals = draw(st.lists(st.integers(1, 255), min_size=2, max_size=5, unique=True))
+    vals = draw(st.lists(st.integers(0, 256), min_size=2, max_size=5, unique=True))      # 0 / 256 = the ends of the chosen interval
     add = draw(st.lists(st.integers(1, 255), min_size=1, max_size=3, unique=True))
     return {"defn": d, "mode": mode, "where": where, "vals": vals, "add": add, "density": draw(st.integers(1, 2)),
-            "rows": draw(st.integers(0, 2))}
+            "rows": draw(st.integers(0, 2)), "onknots": draw(st.lists(st.integers(0, 63), max_size=2)),
+            "noise": draw(st.sampled_from([0, 0, 1, -1]))}
 
 
 def check_helper(case, ctx):
@@ -116,7 +117,20 @@ def check_helper(case, ctx):
     mode = case["mode"]
     base = sorted(set(kv[p:len(kv) - p]))
     if mode in ("list", "list+add"):
-        base = sorted(set(val(i) for i in case["vals"]))
+        import math
+        lst = [val(i) for i in case["vals"]]
+        inner = sorted(set(k for k in kv[p + 1:n] if a < k < b))
+        for sel in case.get("onknots", []):
+            if inner:
+                k0 = inner[sel % len(inner)]
+                if any(abs(x - k0) < 1e-6 for x in lst):
+                    continue        # the list already names this knot: naming it twice (with noise) is not a meaningful input
+                # an entry that coincides with an existing knot, optionally off by one unit in the last place (float noise)
+                nz = case.get("noise", 0)
+                lst.append(math.nextafter(k0, math.inf if nz > 0 else -math.inf) if nz else k0)
+                ctx.label("list-entry-on-existing-knot")
+                ctx.label("list-entry-with-float-noise", bool(nz))
+        base = sorted(set(lst))
         kw["knot_list"] = list(base)
     if mode in ("add", "list+add"):
         addl = [val(i) for i in case["add"]]
